@@ -8,10 +8,14 @@ package main
 import (
 	"encoding/hex"
 	"fmt"
+	"os"
 	"sort"
 	"strings"
 	"time"
 )
+
+var debugSite = os.Getenv("SYMGO_DEBUG_SITE")
+var debugCount int
 
 type decision struct {
 	kind        string // "branch", "choice", "assert", "assume"
@@ -20,6 +24,8 @@ type decision struct {
 	levelBefore int
 	pushed      bool
 	site        string
+	summary     Value
+	val         uint64
 }
 
 type inputDecl struct {
@@ -98,17 +104,21 @@ type Engine struct {
 	unwind                int
 	allocLimit            uint64
 
+	summarised    map[string]bool
+	siteHist      map[string]int
 	funcsExecuted map[string]bool
 	intrinsicsHit map[string]bool
 	stubsHit      map[string]bool
 	assumptions   map[string]bool
 	pathUnknown   bool
+	pathDep       uint8
+	unvalidatable int
 	callStack     []string
 }
 
 func NewEngine(s *Solver) *Engine {
 	return &Engine{solver: s, covers: map[string]int{}, vioKeys: map[string]bool{}, incKeys: map[string]bool{},
-		funcsExecuted: map[string]bool{}, intrinsicsHit: map[string]bool{}, stubsHit: map[string]bool{},
+		funcsExecuted: map[string]bool{}, summarised: map[string]bool{}, siteHist: map[string]int{}, intrinsicsHit: map[string]bool{}, stubsHit: map[string]bool{},
 		assumptions: map[string]bool{}, maxViolationsPerKey: 1, traceEvery: 1, maxTraces: 50, unwind: 64,
 		allocLimit: 0}
 }
@@ -123,6 +133,7 @@ func (e *Engine) beginPath() {
 	e.logs = e.logs[:0]
 	e.pathCov = map[string]bool{}
 	e.pathUnknown = false
+	e.pathDep = 0
 	e.callStack = e.callStack[:0]
 	objCounter = 0
 	e.flipIndex = len(e.stack) - 1
@@ -260,6 +271,17 @@ func (e *Engine) Branch(c *Term, site string) bool {
 		dec.pushed = len(dec.opts) > 1
 		e.stack = append(e.stack, dec)
 		e.decisionsTotal++
+		if len(dec.opts) > 1 {
+			e.siteHist[site]++
+			if debugSite != "" && strings.Contains(site, debugSite) && debugCount < 3 {
+				debugCount++
+				if e.solver.checkSat() == Sat {
+					if in, _, ok := e.modelInputs(); ok {
+						fmt.Fprintf(os.Stderr, "DEBUG fork at %s cond=%s inputs=%v\n", site, c, in)
+					}
+				}
+			}
+		}
 	}
 	v := dec.opts[0] == 1
 	if dec.pushed && e.sending() {
@@ -269,6 +291,9 @@ func (e *Engine) Branch(c *Term, site string) bool {
 	e.depth++
 	e.setKnown(c, v)
 	e.pathConds = append(e.pathConds, e.condOf(c, v))
+	if dec.pushed {
+		e.pathDep |= c.dep
+	}
 	return v
 }
 
@@ -307,6 +332,34 @@ func (e *Engine) Choice(k int, site string) int {
 	e.depth++
 	e.choices = append(e.choices, dec.opts[0])
 	return dec.opts[0]
+}
+
+// PickValue returns some value of t that is feasible under the path condition.
+func (e *Engine) PickValue(t *Term, site string) uint64 {
+	if t.IsConst() {
+		return t.c
+	}
+	if e.depth < len(e.stack) {
+		d := e.stack[e.depth]
+		if d.kind != "pick" {
+			panic(fmt.Sprintf("replay divergence at depth %d: expected %s got pick at %s", e.depth, d.kind, site))
+		}
+		e.depth++
+		return d.val
+	}
+	d := &decision{kind: "pick", nopts: 1, opts: []int{0}, site: site, levelBefore: e.solver.level}
+	if e.solver.checkSat() != Sat {
+		e.noteUnknown("pick " + site)
+		panic(pathEnd{"unknown", "pick " + site})
+	}
+	vals, ok := e.solver.GetValues([]*Term{t})
+	if !ok {
+		panic(pathEnd{"unknown", "pick " + site})
+	}
+	d.val = vals[0]
+	e.stack = append(e.stack, d)
+	e.depth++
+	return d.val
 }
 
 // Assume adds c to the path condition; the path is dropped if infeasible.
@@ -525,6 +578,12 @@ func (e *Engine) finishPath(outcome string) {
 			e.covers[l]++
 		}
 		want := len(e.traces) < e.maxTraces && (e.okPaths-1)%e.traceEvery == 0
+		if e.pathDep != 0 {
+			// the path's control flow depends on the virtual clock or on an unspecified
+			// runtime choice: the native twin cannot pin those, so it is not replay-validated
+			want = false
+			e.unvalidatable++
+		}
 		if want || len(e.samples) < 3 {
 			if e.solver.checkSat() == Sat {
 				if tr, ok := e.buildTrace(); ok {
